@@ -12,6 +12,42 @@ sys.path.insert(0, os.path.dirname(os.path.dirname(os.path.abspath(__file__))))
 from vc import common  # noqa: E402
 
 
+def selftest(prop):
+    """thorough tier: every seeded change of this property (seeded/<name>/patch.diff) is applied to a scratch copy of the CURRENT tree outside /repo and
+    /verif, the quick check is run on it and must report a violation; informational (recorded in the evidence, does not change the exit code)."""
+    import glob
+    import json
+    import shutil
+    import subprocess
+    import tempfile
+    out = []
+    for meta in sorted(glob.glob(os.path.join(common.VERIF, "seeded", "*", "meta.json"))):
+        try:
+            m = json.load(open(meta))
+        except Exception:
+            continue
+        if m.get("property") != prop:
+            continue
+        name = os.path.basename(os.path.dirname(meta))
+        scratch = tempfile.mkdtemp(prefix="verif_selftest_")
+        try:
+            shutil.copytree(os.path.join(common.REPO, "ad_afqmc"), os.path.join(scratch, "ad_afqmc"))
+            patch = os.path.join(os.path.dirname(meta), "patch.diff")
+            ap = subprocess.run(["patch", "-p1", "-s", "-d", scratch, "-i", patch], capture_output=True, text=True)
+            if ap.returncode != 0:
+                out.append(dict(seeded=name, result="patch no longer applies (skipped)"))
+                continue
+            env = dict(os.environ, REPO=scratch, VERIF_EVIDENCE_DIR=os.path.join(scratch, "evidence"), VERIF_REPLAY_DIR=os.path.join(scratch, "replay"), VERIF_NO_SELFTEST="1")
+            r = subprocess.run([sys.executable, "-m", "vc.main", prop, "--tier", "quick"], cwd=common.VERIF, env=env, capture_output=True, text=True, timeout=3600)
+            viol = [l.split("obligation=")[-1] for l in r.stdout.splitlines() if l.startswith("VIOLATION")]
+            out.append(dict(seeded=name, exit=r.returncode, killed=(r.returncode == 1), violations=viol[:4]))
+        except Exception as e:   # noqa
+            out.append(dict(seeded=name, result="selftest error " + repr(e)[:120]))
+        finally:
+            shutil.rmtree(scratch, ignore_errors=True)
+    return out
+
+
 def main():
     ap = argparse.ArgumentParser()
     ap.add_argument("prop")
@@ -19,6 +55,7 @@ def main():
     ap.add_argument("--only", default=None, help="substring filter on task function / kwargs (development aid)")
     ap.add_argument("--inline", action="store_true")
     a = ap.parse_args()
+    os.environ["VERIF_TIER"] = a.tier
     try:
         pm = importlib.import_module(f"props.{a.prop}")
         rep = common.Report(a.prop, a.tier, pm.LEVEL, pm.EXPLANATION,
@@ -29,6 +66,8 @@ def main():
         obs = common.run_tasks(tasks, inline=a.inline)
         if hasattr(pm, "post"):
             obs = pm.post(obs, a.tier, rep) or obs
+        if a.tier == "thorough" and not os.environ.get("VERIF_NO_SELFTEST"):
+            rep.extra["seeded_selftest"] = selftest(a.prop)
         from vc import front
         rep.add_functions(front.shas(sorted({f for o in obs for f in o.get("functions", []) if f and ":" not in f})))
         if hasattr(pm, "functions"):
